@@ -231,7 +231,31 @@ def evil_name(r):
     return word(r, 1, 20) + " " + word(r, 1, 20)
 
 
+# words that occur as literals in the expressions: a field value that merely begins or ends with one of them
+# (an account called "svcDeployID", a fingerprint ending in "...ID") must not move any field boundary
+LITERAL_WORDS = ["ID", "CA", "serial", "from", "port", "ssh2", "ssh", "for", "user", "invalid", "Accepted", "publickey",
+                 "password", "not", "allowed", "because", "shell", "by", "file", "revoked", "in", "maps", "to", "is", "failed"]
+SPICED = {"u", "sum", "cf", "d", "f", "sh", "k"}
+
+
+def spice(r, name, val):
+    if name not in SPICED or val is None or not r.chance(1, 10):
+        return val
+    if name in ("sum", "cf") and ":" in val[7:]:
+        return val          # MD5 fingerprints are hex digits and colons only
+    w = r.choice(LITERAL_WORDS)
+    if name in ("sum", "cf"):
+        w = r.choice(["ID", "CA", "ssh2", "from", "port", "serial"])
+        return val + w
+    return val + w if r.below(3) else w + val
+
+
 def fields_for(r, form, adversarial=False):
+    fs = _fields_for(r, form, adversarial)
+    return [spice(r, n, v) for n, v in zip(FORMS[form], fs)]
+
+
+def _fields_for(r, form, adversarial=False):
     out = []
     for name in FORMS[form]:
         if name == "u":
